@@ -138,6 +138,61 @@ def evaluate(case, sample, hyper=None, cosmo=None):
     return terms, float(np.squeeze(sample.log_likelihood(cosmo, **copy.deepcopy(h))))
 
 
+PER_LENS = {"self", "kwargs_likelihood", "gamma_pl_index", "global_los_distribution", "j_kin_scaling_grid_list",
+            "j_kin_scaling_param_axes", "kin_scaling_param_list", "kwargs_lens_properties", "kwargs_los_individual",
+            "lambda_scaling_property", "lambda_scaling_property_beta", "likelihood_type", "los_distribution_individual",
+            "mst_ifu", "name", "normalized", "num_distribution_draws", "prior_list", "z_lens", "z_source"}
+
+
+def model_settings():
+    import inspect
+    from hierarc.Likelihood.hierarchy_likelihood import LensLikelihood
+    return set(inspect.signature(LensLikelihood.__init__).parameters) - PER_LENS
+
+
+def merged_oracle(case, flags):
+    from hierarc.Likelihood.lens_sample_likelihood import LensSampleLikelihood
+    from hierarc.Likelihood.hierarchy_likelihood import LensLikelihood
+    fails = []
+    model = model_settings()
+    glob = copy.deepcopy(case["glob"])
+    glob.update(lambda_mst_distribution="GAUSSIAN", anisotropy_distribution="GAUSSIAN")
+    if case["gglobal"]:
+        glob.update(gamma_pl_global_sampling=True, gamma_pl_global_dist="GAUSSIAN")
+    hn = copy.deepcopy(case["hyper"])
+    hn["kwargs_lens"].update(lambda_mst_sigma=0.03, lambda_ifu_sigma=0.02, gamma_pl_sigma=0.05)
+    hn["kwargs_kin"].update(a_ani_sigma=0.1)
+    cosmo = lc.FakeCosmo()
+    k = 0
+    for i, (kw, lt, _) in enumerate(case["lenses"]):
+        h1 = copy.deepcopy(hn)
+        gpi = None
+        if flags[i]:
+            h1["kwargs_lens"]["gamma_pl_list"] = [case["hyper"]["kwargs_lens"]["gamma_pl_list"][k]]
+            k += 1
+            gpi = 0
+        else:
+            h1["kwargs_lens"].pop("gamma_pl_list", None)
+        try:
+            a_obj = LensSampleLikelihood([copy.deepcopy(kw)], normalized=False, kwargs_global_model=copy.deepcopy(glob))._lens_list[0]
+            merged = {kk: copy.deepcopy(v) for kk, v in glob.items() if kk in model}
+            merged.update(copy.deepcopy(kw))
+            merged.pop("kwargs_lens_properties", None)
+            b_obj = LensLikelihood(normalized=False, gamma_pl_index=gpi, **merged)
+            np.random.seed(7)
+            a = float(np.squeeze(a_obj.lens_log_likelihood(cosmo, **copy.deepcopy(h1))))
+            np.random.seed(7)
+            b = float(np.squeeze(b_obj.lens_log_likelihood(cosmo, **copy.deepcopy(h1))))
+        except Exception as e:  # noqa
+            fails.append("merged settings: lens %d (%s) raised %s: %s" % (i, lt, err_enum(e), str(e)[:80]))
+            continue
+        if not close(a, b, 1e-10):
+            inherited = sorted(kk for kk in glob if kk in model and kk not in kw)
+            fails.append("merged settings: lens %d (%s) inside a sample gives %r, LensLikelihood(**{global model settings, "
+                         "lens settings}) gives %r on the same random stream (inherited: %s)" % (i, lt, a, b, inherited))
+    return fails
+
+
 def oracle(case, rng):
     fails = []
     sample = build(case)
@@ -175,6 +230,10 @@ def oracle(case, rng):
         t1, _ = evaluate(case, alone, h1)
         if not close(t1[0], terms[i], 1e-10):
             fails.append("lens %d (%s) alone gives %r, inside the sample %r" % (i, lt, t1[0], terms[i]))
+    # merged settings, stated independently of hierArc's merge: a model choice of the global dictionary (= a keyword of
+    # LensLikelihood that is not a per-lens datum) applies to a lens unless the lens states its own.  Compared under
+    # non-default population choices and non-zero scatters, same random stream for both.
+    fails += merged_oracle(case, flags)
     # shuffle with slopes re-ordered accordingly
     if n >= 2:
         order = list(range(n))
